@@ -61,7 +61,8 @@ type DashObs struct {
 	Body     string
 	Stored   bool     // the insert into shovel.integrations was executed
 	AppNames []string // `set application_name ...` texts received by the database
-	AllSQL   []string // every text the database received during the call
+	AllSQL   []string // every text the database received during the call and the step after it
+	Params   []string // every statement parameter the database received
 	Hung     bool
 }
 
@@ -111,6 +112,7 @@ func (e *DashEnv) Run(igDoc string, srcs []shconfig.Source) (coq string, o DashO
 	o.Status, o.Body = rec.Code, strings.TrimSpace(rec.Body.String())
 	for _, en := range e.S.Log()[n0:] {
 		o.AllSQL = append(o.AllSQL, en.SQL)
+		o.Params = append(o.Params, renderParams(en.Params)...)
 		if en.Kind == "insert" && en.Table == "shovel.integrations" && strings.HasPrefix(en.Outcome, "ok") {
 			o.Stored = true
 		}
@@ -129,6 +131,20 @@ func (e *DashEnv) Run(igDoc string, srcs []shconfig.Source) (coq string, o DashO
 		return
 	}
 	o.Panic = catch(func() { driveTasks(&o.Obs, srcs, loaded) })
+	// one Converge step of the stored integration (the tasks the manager started ended at once
+	// at the planted cursor): the cursor statements, latestDependency with the stored
+	// Dependencies, go over the wire.  `set application_name` of this second load is not
+	// handed to the model (it was compared above).
+	if o.Panic == "" {
+		if _, err := e.S.Exec("delete from shovel.task_updates"); err == nil {
+			n1 := e.S.LogLen()
+			o.Panic = catch(func() { convergeOnce(ctx, e.Pool, conf, loaded) })
+			for _, en := range e.S.Log()[n1:] {
+				o.AllSQL = append(o.AllSQL, en.SQL)
+				o.Params = append(o.Params, renderParams(en.Params)...)
+			}
+		}
+	}
 	return
 }
 
